@@ -52,7 +52,8 @@ def one(m, with_tests):
         shutil.rmtree(ev, ignore_errors=True)
         want = m.get("expect", "kill")
         ok = all((rc == 1) == (want == "kill") for rc, _ in res.values())
-        return m["name"], ("ok" if ok else "MISS" if want == "kill" else "FALSE-ALARM"), json.dumps(res)
+        brief = {p: rules for p, (rc, rules) in res.items() if rc != 0}
+        return m["name"], ("ok" if ok else "MISS" if want == "kill" else "FALSE-ALARM"), json.dumps(brief) if brief else "silent on " + ",".join(res)
     finally:
         shutil.rmtree(d, ignore_errors=True)
 
